@@ -22,6 +22,14 @@ Theorem C07_batched_optional : forall solss i sols v, nth_error solss i = Some s
 Proof. exact batched_optional_column. Qed.
 Print Assumptions C07_batched_optional.
 
+(* The target query: kinds of targets with several values go into a VALUES clause holding the product of
+   their value lists; the focus nodes collected over all rows and columns are exactly the union, over
+   every kind and every one of its values, of what that kind's pattern returns - no value is skipped. *)
+Theorem C07_target_query_covers_all_values : forall sol kinds x, Forall (fun l => l <> []) kinds ->
+  (In x (target_focus sol kinds) <-> exists k l v, nth_error kinds k = Some l /\ In v l /\ In x (sol k v)).
+Proof. exact target_query_covers_all_values. Qed.
+Print Assumptions C07_target_query_covers_all_values.
+
 (* Value nodes: for every graph, path, batch of focus nodes - the sparql_mode look-up returns, per
    focus node, the same set as the in-memory evaluator, PROVIDED the engine answers a path
    pattern by the SPARQL path relation (the stated assumption on rdflib / the remote endpoint). *)
